@@ -446,7 +446,7 @@ def run_check(prop, tier, seed, only=None, jobs=None):
         return 1
     if errors or health:
         for e in errors[:5]:
-            print("HARNESS-ERROR:", e, file=sys.stderr)
+            print("HARNESS-ERROR:", e[:1500], file=sys.stderr)
         for h in health:
             print("HARNESS-ERROR: generator health:", h, file=sys.stderr)
         return 2
